@@ -128,6 +128,7 @@ func walletHistory(r *evid.Run, dir string, cs int64) {
 			k, forceImport = 5, false
 		}
 		var what string
+		var dryBefore map[string]string
 		switch k {
 		case 0, 1, 2:
 			a := accts[rg.Intn(len(accts))]
@@ -141,9 +142,29 @@ func walletHistory(r *evid.Run, dir string, cs int64) {
 			}
 		case 3:
 			sc := waddrmgr.KeyScopeBIP0084
-			_, err := f.W.CreateSimpleTx(&sc, 0, []*wire.TxOut{wire.NewTxOut(int64(9000+rg.Intn(9000)), dpk)}, 1, 2000, wallet.CoinSelectionLargest, true)
-			what = fmt.Sprintf("CreateSimpleTx(dry run) -> %v", err)
+			amt := int64(9000 + rg.Intn(9000))
+			noChange := false
+			if rg.Intn(2) == 0 {
+				// nearly the whole largest coin: what is left after the fee is dust, so the
+				// authored transaction has no change output (the change address was still
+				// asked for while authoring)
+				var best int64
+				for _, c := range f.SortedCoins() {
+					if f.Ineligible(c, &sc, 0, 1) == "" && c.Out.Value > best {
+						best = c.Out.Value
+					}
+				}
+				if best > 5000 {
+					amt, noChange = best-230-int64(rg.Intn(150)), true
+				}
+			}
+			dryBefore = walletSurface(f.DB, f.W.Manager, names)
+			atx, err := f.W.CreateSimpleTx(&sc, 0, []*wire.TxOut{wire.NewTxOut(amt, dpk)}, 1, 2000, wallet.CoinSelectionLargest, true)
+			what = fmt.Sprintf("CreateSimpleTx(dry run, amount %d) -> %v", amt, err)
 			r.Hit("wallet-dry-runs:create-tx", 1)
+			if err == nil && noChange && atx.ChangeIndex < 0 {
+				r.Hit("wallet-dry-runs:create-tx-without-change", 1)
+			}
 		case 4:
 			a := accts[rg.Intn(len(accts))]
 			n := fmt.Sprintf("name-%d", rg.Intn(1e6))
@@ -275,6 +296,23 @@ func walletHistory(r *evid.Run, dir string, cs int64) {
 			}
 		}
 		r.Hit("wallet-restart-comparisons", 1)
+		// a dry run is a rolled-back transaction: nothing the manager answers may have moved
+		if dryBefore != nil {
+			var moved []string
+			for k, v := range dryBefore {
+				if run[k] != v {
+					moved = append(moved, fmt.Sprintf("%s: before %q, after %q", k, v, run[k]))
+				}
+			}
+			sort.Strings(moved)
+			if len(moved) > 0 {
+				if len(moved) > 6 {
+					moved = moved[:6]
+				}
+				fail("c08:wallet:dry-run-changed-the-manager", fmt.Sprintf("%s changed what the running manager answers:\n%s", what, strings.Join(moved, "\n")))
+				return
+			}
+		}
 		if len(diffs) > 0 {
 			if len(diffs) > 6 {
 				diffs = diffs[:6]
